@@ -73,6 +73,7 @@ type loopInfo struct {
 	body    map[*ssa.BasicBlock]bool
 	ordinal int
 	mods    map[string]bool
+	genMods map[string]bool // modified by something other than writes to freshly allocated objects
 	all     bool
 	spec    *LoopSpec
 	decVal  string // measure at header
@@ -131,7 +132,11 @@ type Enc struct {
 	retCount map[string]int
 	wfSeen   map[string]bool
 	refComp  map[string]bool
+	cells    []ssa.Value // own variable cells (escaping allocs / captured variables) reachable by callees only as arguments
+	sliceComp map[string]bool
 	inferredUsed map[string]bool
+	genWrites map[*ssa.BasicBlock]map[string]bool
+	freshMode bool
 }
 
 type iterRec struct {
@@ -161,10 +166,12 @@ func (e *Enc) reset() {
 	e.obls = nil
 	e.n = 0
 	e.writes = map[*ssa.BasicBlock]map[string]bool{}
+	e.genWrites = map[*ssa.BasicBlock]map[string]bool{}
 	e.havocs = map[*ssa.BasicBlock]bool{}
 	e.compSort = map[string]string{}
 	if e.refComp == nil {
 		e.refComp = map[string]bool{}
+		e.sliceComp = map[string]bool{}
 	}
 	e.closures = map[ssa.Value]*ssa.MakeClosure{}
 	e.defers = nil
@@ -244,7 +251,14 @@ func (e *Enc) get(st *State, key string) string {
 		}
 		if e.refComp[key] {
 			st.m[key] = name
-			e.closure(key, name, e.get(st, e.allocKey()))
+			// closure w.r.t. the allocation counter at the start of this epoch (not the current one)
+			an := fmt.Sprintf("alloc__e%d", st.epoch)
+			if _, ok := e.declared[an]; !ok {
+				e.decls = append(e.decls, fmt.Sprintf("(declare-const %s Int)", an))
+				e.declared[an] = sInt
+				e.assert(fmt.Sprintf("(>= %s 0)", an))
+			}
+			e.closure(key, name, an)
 		}
 	}
 	st.m[key] = name
@@ -265,7 +279,21 @@ func (e *Enc) set(key, term string) {
 			e.writes[e.curBlock] = map[string]bool{}
 		}
 		e.writes[e.curBlock][key] = true
+		if !e.freshMode {
+			if e.genWrites[e.curBlock] == nil {
+				e.genWrites[e.curBlock] = map[string]bool{}
+			}
+			e.genWrites[e.curBlock][key] = true
+		}
 	}
+}
+
+// setFresh is set for updates that only touch an object allocated by the current instruction
+// (loops that modify a heap component only in this way keep everything allocated before the loop).
+func (e *Enc) setFresh(key, term string) {
+	e.freshMode = true
+	e.set(key, term)
+	e.freshMode = false
 }
 
 var epochCounter int
@@ -288,6 +316,12 @@ func hasWriteMethod(t types.Type) bool {
 
 // havocAllArgs is havocAll for a call: writer ghosts survive except at the argument indices.
 func (e *Enc) havocAllArgs(args []TV) {
+	argSet := map[string]bool{}
+	for _, a := range args {
+		argSet[a.S] = true
+	}
+	cells := e.saveCells(func(v ssa.Value) bool { return argSet[e.vals[v].S] })
+	defer e.restoreCells(cells)
 	saved := map[string]string{}
 	for _, k := range writerGhosts {
 		if g := e.w.cs.Ghosts[strings.TrimPrefix(k, "G|")]; g != nil {
@@ -364,6 +398,12 @@ func (e *Enc) heapKey(structSort string, field int) string {
 	if info.GoT != nil && field < info.GoT.NumFields() && isRefType(info.GoT.Field(field).Type()) {
 		e.refComp[k] = true
 	}
+	if info.GoT != nil && field < info.GoT.NumFields() {
+		if _, isSl := info.GoT.Field(field).Type().Underlying().(*types.Slice); isSl {
+			e.refComp[k] = true
+			e.sliceComp[k] = true
+		}
+	}
 	return k
 }
 func (e *Enc) memKey(sort string) string {
@@ -394,6 +434,10 @@ func (e *Enc) closure(key, term, allocTerm string) {
 		e.assert(fmt.Sprintf("(forall ((b Int) (i Int)) (! (=> (<= b %s) (<= (select (select %s b) i) %s)) :pattern ((select (select %s b) i))))", allocTerm, term, allocTerm, term))
 		return
 	}
+	if e.sliceComp[key] {
+		e.assert(fmt.Sprintf("(forall ((x Int)) (! (=> (<= x %s) (<= (sbase (select %s x)) %s)) :pattern ((select %s x))))", allocTerm, term, allocTerm, term))
+		return
+	}
 	e.assert(fmt.Sprintf("(forall ((x Int)) (! (=> (<= x %s) (<= (select %s x) %s)) :pattern ((select %s x))))", allocTerm, term, allocTerm, term))
 }
 
@@ -401,6 +445,10 @@ func (e *Enc) closure(key, term, allocTerm string) {
 func (e *Enc) closureElem(key, elem, allocTerm string) {
 	if strings.HasPrefix(key, "Arr|") {
 		e.assert(fmt.Sprintf("(forall ((i Int)) (! (<= (select %s i) %s) :pattern ((select %s i))))", elem, allocTerm, elem))
+		return
+	}
+	if e.sliceComp[key] {
+		e.assert(fmt.Sprintf("(<= (sbase %s) %s)", elem, allocTerm))
 		return
 	}
 	e.assert(fmt.Sprintf("(<= %s %s)", elem, allocTerm))
@@ -420,7 +468,7 @@ func (e *Enc) allocRef(hint string) string {
 	a := e.get(e.st, e.allocKey())
 	r := e.fresh(hint, sInt)
 	e.assert(eq(r, fmt.Sprintf("(+ %s 1)", a)))
-	e.set(e.allocKey(), r)
+	e.setFresh(e.allocKey(), r)
 	return r
 }
 
